@@ -133,6 +133,9 @@ def cases(tier, rng):
                 ops += ["recv", "send 4f4b"] + ["wire " + x for x in names]
         out.append("c%d sock REP / %s" % (k, " / ".join(ops)))
         k += 1
+    # REQ's send over connections that answer every write from a script (compared with Model/DirSend.v)
+    from . import scripted
+    out += scripted.req_cases(tier, rng, k)
     return out
 
 
@@ -140,13 +143,28 @@ def compare_filter(line):
     return not line.startswith(("d", "w", "g"))      # the model assumes distinct identities and has no write faults
 
 
+def model_cases(case_lines):
+    from . import scripted
+    return [scripted.req_model(l) if l.startswith("k") else l for l in case_lines]
+
+
 def norm_impl(o, line):
+    if line.startswith("k"):
+        from . import scripted
+        return scripted.norm(o)
     return S.canon_impl(o, line)
+
+
+def norm_model(o, line):
+    return o if line.startswith("k") else S.canon_impl(o, line)
 
 
 def judge(line, obs, orc):
     if S.bad_obs(obs):
         return "implementation " + str(obs)[:80]
+    if line.startswith("k"):
+        from . import scripted
+        return scripted.rotation_judge(line, obs, [b""])
     t, po = S.pair_ops_obs(line, obs)
     kind = line.split()[0][0]
     if kind == "q":
@@ -322,4 +340,3 @@ def classify(line, what):
     return "c08-" + line.split()[2].lower()
 
 
-norm_model = norm_impl
